@@ -19,7 +19,11 @@ KNOWN_MUTS = ["Bitflip","Boundary","Offbyone","Stringlen","Character","Memoindex
 TABLES_FILE = [None]
 CACHE = [{}]
 CACHE_KEYS = {"ascii": ["ascii"], "boundaries": ["b_int", "b_long", "b_float"], "typeconfusion": ["o2t", "all_types", "stack_types"],
-              "defaults": ["def_min", "def_max", "def_rate"], "all_mutators": ["all_safe", "all_unsafe_extra"]}
+              "defaults": ["def_min", "def_max", "def_rate"], "all_mutators": ["all_safe", "all_unsafe_extra"],
+              "guards": ["guards_lines"]}
+
+
+sys.path.insert(0, os.path.dirname(os.path.abspath(__file__)))
 
 
 class Refuse(Exception):
@@ -218,6 +222,15 @@ def extract(repo):
     soft("typeconfusion", ["C16"], ["o2t", "all_types", "stack_types"], sec_typeconf)
     soft("defaults", ["C13", "C12"], ["def_min", "def_max", "def_rate"], sec_defaults)
     soft("all_mutators", ["C13"], ["all_safe", "all_unsafe_extra"], sec_all_mutators)
+    # the decision logic itself: `Generator::can_emit`, arm by arm (tools/guards.py) -> GeneratedGuards.lean;
+    # `Tables.canEmit_from_source` re-proves on every run that it is the hand-written `canEmit`
+    def sec_guards():
+        import guards as G
+        try:
+            R["guards_lines"] = G.translate(repo, KNOWN_OPS)
+        except G.Refuse as ex:
+            raise Refuse(str(ex))
+    soft("guards", ["C01", "C02", "C03", "C05", "C10", "C11", "C12", "C17"], ["guards_lines"], sec_guards)
     # C14: every in-place mutation site works on a stack cell (bound by self.peek() / self.pop()), and
     # Stack::push registers the cell it creates; reset and Drop release the registered cells.
     # A refusal in this section concerns C14 only: it is recorded (R["heap_refused"]) instead of aborting the
@@ -361,6 +374,12 @@ def main():
     except (OSError, AttributeError, IndexError) as e:
         sys.stderr.write("translate: REFUSED: source shape not recognised (%s: %s)\n" % (type(e).__name__, e))
         sys.exit(3)
+    import guards as G
+    gout = os.path.join(os.path.dirname(os.path.abspath(a.out)), "GeneratedGuards.lean")
+    gtxt = G.render(R["guards_lines"])
+    if (open(gout).read() if os.path.exists(gout) else None) != gtxt:
+        open(gout, "w").write(gtxt)
+        print("translate: GeneratedGuards.lean rewritten")
     old = open(a.out).read() if os.path.exists(a.out) else None
     if old != txt:
         open(a.out, "w").write(txt)
